@@ -4,7 +4,7 @@ import json
 HARNESS_FAMILY = 'line'
 TRACE_SPEC = ('TraceLine.tla', 'TraceLine.cfg')
 INVS = ['RoundTrip', 'NoSmuggle', 'Emit']
-ALPHA = '{<<97>>, <<46>>, <<32>>, <<60>>, <<62>>, <<64>>, <<44>>, <<59>>, <<58>>, <<92>>, <<34>>, <<195, 169>>, <<37>>, <<43>>}'
+ALPHA = '{<<97>>, <<46>>, <<32>>, <<60>>, <<62>>, <<64>>, <<44>>, <<59>>, <<58>>, <<92>>, <<34>>, <<195, 169>>, <<37>>, <<43>>, <<194, 160>>}'
 HELOS = '{"plain", "sp", "tab", "cr", "lf", "crlf", "nul", "lt", "literal", "trailsp"}'
 DSNS = '{"off", "never", "succfail", "all", "hdrs", "neverfirst", "neverlast", "bogus", "plain"}'
 STAGES = {
